@@ -66,6 +66,18 @@ def run(tier):
         q = Select([Item(col("c_1", a.key()), "o_1"), Item(col("c_2", b.key()), "o_2"), Item(col("c_3", a.key()))], [Group(a, [(rnd.choice(["inner", "left"]), b, "on")])])
         extra.append(Stmt(rnd.choice(["insert", "ctas"]), Base(f"tb_sw{i}"), q))
     from vlib.sqlgen import Derived, P
+    for i in range(18 if tier == "quick" else 150):
+        # stars over several derived tables / tables that expose a column of the same name (the join key): which one feeds it must not
+        # depend on how the aliases are spelled
+        def dt(tab, alias, extra_col):
+            return Derived(Select([Item(col("k_1")), Item(col(extra_col))], [Group(Base(tab))]), alias)
+        a1, a2, a3 = f"xa{i}", f"xb{i}", f"xc{i}"
+        rels = [dt(f"tb_sa{i}", a1, "c_1"), dt(f"tb_sb{i}", a2, "c_2")]
+        if i % 3 == 0:
+            rels.append(dt(f"tb_sc{i}", a3, "c_3"))
+        items = [Item(None, is_star=True)] if i % 2 else [Item(None, is_star=True, star_q=r_.key()) for r_ in reversed(rels)]
+        q = Select(items, [Group(rels[0], [("inner", r_, "on") for r_ in rels[1:]])])
+        extra.append(Stmt(rnd.choice(["insert", "ctas"]), Base(f"tb_sz{i}"), q))
     for i in range(24 if tier == "quick" else 200):
         # UPDATE ... FROM with sub-queries of its own scopes: WHERE IN / EXISTS over an aliased table, a derived table in FROM
         src = Base(f"tb_us{i}", rnd.choice([None, "sa"]), f"s{i}")
